@@ -318,6 +318,44 @@ func §gen() ITER[int] GEN[int]{
 	RETNIL
 }GEN
 `+StdEntry, "closure:labels"),
+		Raw("opt-plain-closure-with-native-left-range-and-break", `
+func §gen() ITER[int] GEN[int]{
+	arr := [5]int{3, 4, -1, 6, 7}
+	window := func(from int) any {
+		sum := 0
+		for i, v := range &arr {
+			if i < from {
+				continue
+			}
+			if v < 0 {
+				break
+			}
+			sum += v
+		}
+		return sum
+	}
+	sq := func(yield func(int) bool) {
+		for i := 0; i < 5; i++ {
+			if !yield(i) {
+				return
+			}
+		}
+	}
+	count := func() (n int) {
+		for v := range sq {
+			if v == 3 {
+				break
+			}
+			n++
+		}
+		return
+	}
+	YIELD(window(0).(int))
+	YIELD(window(1).(int))
+	YIELD(count())
+	RETNIL
+}GEN
+`+StdEntry, "closure:native-range"),
 		Raw("opt-closure-get-after-yield", `
 type §box struct{ v int }
 
